@@ -270,7 +270,7 @@ def generator_rules(cfg, R):
     from . import pipeline
     R.instance('G4', 'tzdb.transformer.Transformer.transform', tf.loc)
     for scope_ in ('extended', 'basic'):
-        text_ = ''.join('Zone\t%s\t1:00\t-\tTST\n' % z_ for z_ in ('Tag/bA', 'Tag/mid', 'Tag/ab'))
+        text_ = ''.join('Zone\t%s\t1:00\t-\tTST\n' % z_ for z_ in ('Tag/bA', 'Tag/mid', 'Tag/az', 'Tag/ab'))
         try:
             db_, _raw = pipeline.compile_text(cfg, text_, scope_)
         except pipeline.Raised:
@@ -288,7 +288,11 @@ def generator_rules(cfg, R):
     R.instance('G4', cd, df.loc)
     if djb2('Tag/bA') != djb2('Tag/ab'):
         raise AnalysisError('internal: the colliding pair does not collide')
-    for zs, collide in (({'Tag/bA': e1, 'Tag/mid': e1, 'Tag/ab': e1}, True), ({'Tag/ab': e1, 'Tag/zz': e1, 'Tag/bA': e1}, True), ({'Tag/one': e1, 'Tag/two': e1}, False)):
+    # the colliding pair first and last, last and first, and with a name that sorts *between* the two (Tag/ab < Tag/az < Tag/bA):
+    # a detector that looks at neighbours in name order only sees the first two families
+    for zs, collide in (({'Tag/bA': e1, 'Tag/mid': e1, 'Tag/ab': e1}, True), ({'Tag/ab': e1, 'Tag/zz': e1, 'Tag/bA': e1}, True),
+                        ({'Tag/ab': e1, 'Tag/az': e1, 'Tag/bA': e1}, True), ({'Tag/bA': e1, 'Tag/az': e1, 'Tag/aa': e1, 'Tag/ab': e1, 'Tag/c': e1}, True),
+                        ({'Tag/one': e1, 'Tag/two': e1}, False)):
         st, v = guarded(df, lambda: ev.call(tr, 'Transformer._detect_hash_collisions', [dict(zs)], recv=transformer()))
         if collide and st != 'raised':
             R.violation('G4', cd, df.loc, 'zones %s: %s and %s share the id 0x%08x, yet no exception is raised: two names with one id pass unnoticed' % (sorted(zs), 'Tag/bA', 'Tag/ab', djb2('Tag/ab')))
@@ -417,6 +421,15 @@ SELFTEST = [
     dict(id='symbol-table-keyed-by-zone-name', file='tools/tzdb/transformer.py', find='                normalized_names[nname] = zone_name', replace='                normalized_names[zone_name] = nname', rule='G5'),
     dict(id='symbol-table-probed-by-link-name', file='tools/tzdb/transformer.py', unique=False, nth=1,
          find='            if normalized_names.get(nname):', replace='            if normalized_names.get(link_name):', rule='G5'),
+    dict(id='collision-neighbours-in-name-order', file='tools/tzdb/transformer.py', regex=True,
+         find=r'        hashes: Dict\[int, str\] = \{\}\n        for name, _ in zones_map\.items\(\):\n.*?                hashes\[h\] = name\n',
+         replace='        entries = sorted((name, hash_name(name)) for name in zones_map)\n        for (prev_name, prev_hash), (name, h) in zip(entries, entries[1:]):\n'
+                 '            if prev_hash == h:\n                raise Exception("Hash collision")\n', rule='G4'),
+    # (seeded round 6: equal ids are neighbours only when the list is sorted by id; sorted by name, a third name between the two hides them)
+    dict(id='collision-neighbours-in-id-order-silent', file='tools/tzdb/transformer.py', regex=True,
+         find=r'        hashes: Dict\[int, str\] = \{\}\n        for name, _ in zones_map\.items\(\):\n.*?                hashes\[h\] = name\n',
+         replace='        entries = sorted((hash_name(name), name) for name in zones_map)\n        for (prev_hash, prev_name), (h, name) in zip(entries, entries[1:]):\n'
+                 '            if prev_hash == h:\n                raise Exception("Hash collision")\n', expect='silent'),
     dict(id='collision-check-dropped', file='tools/tzdb/transformer.py',
          find='zones_map = self._detect_hash_collisions(zones_map)', replace='pass', rule='G4'),
 ]
